@@ -74,10 +74,10 @@ int main() {
         for (int k = 0; k < 4; ++k) {
           th.emplace_back([&, k]() {
             int m[8];
-            for (int i = 0; i < 8; ++i) m[i] = l[i] + 7919 * k;
+            for (int i = 0; i < 8; ++i) m[i] = (int) ((unsigned) l[i] + 7919u * (unsigned) k);
             occa::hash_t h(m);
             const std::string full = h.getFullString();
-            for (int it = 0; it < 3000; ++it) {
+            for (int it = 0; it < 400; ++it) {
               occa::hash_t g(m);
               std::string f = g.getFullString();
               if (f != full || occa::hash_t::fromString(f) != g || g.getString() != full.substr(0, 16)) ++bad;
